@@ -133,8 +133,11 @@ class Ctx:
                 ents = [os.path.join(CACHE, d) for d in os.listdir(CACHE)
                         if os.path.isdir(os.path.join(CACHE, d)) and re.fullmatch(r"[0-9a-f]{16}", d)]
                 ents.sort(key=lambda p: os.path.getmtime(p), reverse=True)
+                now = time.time()
                 for old in ents[keep:]:
-                    shutil.rmtree(old, ignore_errors=True)
+                    # never remove a tree's cache that was used during the last 90 minutes: a check of that tree may still be running (several trees can be checked at once)
+                    if now - os.path.getmtime(old) > 5400:
+                        shutil.rmtree(old, ignore_errors=True)
         except OSError:
             pass
 
@@ -397,6 +400,10 @@ class Ctx:
         e = dict(os.environ)
         if env:
             e.update(env)
+        try:
+            os.utime(self.cdir, None)          # keep this tree's cache fresh while the check is running (see _prune_cache)
+        except OSError:
+            pass
         rc, out, err = sh([exe] + [str(a) for a in args], input=inp, timeout=timeout, env=e)
         lines = out.split("\n")
         if lines and lines[-1] == "":
